@@ -212,6 +212,10 @@ def _make_path_function(jobs, path):
         # Generate a path function based on the schema detected for jobs.
         path_function = _make_schema_based_path_function(jobs=jobs)
 
+        # Paths generated from the schema can collide (e.g. for the values 1
+        # and '1').
+        _check_path_function_unique(jobs, path_spec=path, path_function=path_function)
+
     elif path is False:
         # Just use the job id as path.
         def path_function(job):
@@ -346,13 +350,7 @@ def _export_jobs(jobs, path, copytree):
         _check_path_function_unique(jobs, path_spec=path, path_function=path_function)
     else:
         path_function = _make_path_function(jobs, path)
-        # String specifications are checked for uniqueness inside
-        # _make_path_function. Paths generated from the schema can collide,
-        # too (e.g. for the values 1 and '1').
-        if not isinstance(path, str):
-            _check_path_function_unique(
-                jobs, path_spec=path, path_function=path_function
-            )
+        # path_function is checked for uniqueness inside _make_path_function
 
     # Determine export path for each job.
     paths = {job.path: path_function(job) for job in jobs}
